@@ -101,14 +101,23 @@ package common
 //@   ensures r == availBS(this)
 //@   modifies nothing
 
+// the bit stream of a BitSource: bit p (p = 0 is the most significant bit of byte 0)
+//@ spec func srcBit(s *BitSource, p int) bool = (int(s.bytes[p / 8]) >> uint(7 - p % 8)) & 1 == 1
+//@ spec func posBS(s *BitSource) int = 8 * s.byteOffset + s.bitOffset
+// ReadBits(n) returns the next n bits of the stream, first bit most significant: stream bit pos+k is bit n-1-k of the result
 //@ func (this *BitSource) ReadBits(numBits int) (r int, e error)
-//@   property C06 C01
-//@   requires wfBS(this)
+//@   property C06 C01 C02 C15
+//@   mode bv
+//@   requires wfBS(this) && len(this.bytes) <= 1000000
 //@   ensures wfBS(this) && this.bytes == old(this.bytes)
 //@   ensures (e == nil) == (1 <= numBits && numBits <= 32 && numBits <= old(availBS(this)))
-//@   ensures e == nil ==> availBS(this) == old(availBS(this)) - numBits
-//@   ensures e != nil ==> this.byteOffset == old(this.byteOffset) && this.bitOffset == old(this.bitOffset)
+//@   ensures e == nil ==> availBS(this) == old(availBS(this)) - numBits && posBS(this) == old(posBS(this)) + numBits
+//@   ensures e != nil ==> this.byteOffset == old(this.byteOffset) && this.bitOffset == old(this.bitOffset) && r == 0
+//@   ensures e == nil ==> 0 <= r && (numBits < 32 ==> r < (1 << uint(numBits)))
+//@   ensures e == nil ==> forall k int :: 0 <= k && k < numBits ==> ((r >> uint(numBits - 1 - k)) & 1 == 1) == srcBit(this, old(posBS(this)) + k)
 //@   modifies this.byteOffset, this.bitOffset
 //@   loop 0: invariant wfBS(this) && this.bitOffset == 0 && this.bytes == old(this.bytes) && 0 <= numBits && numBits <= availBS(this)
 //@   loop 0: invariant availBS(this) - numBits == old(availBS(this)) - old(numBits) && 1 <= old(numBits) && old(numBits) <= 32 && old(numBits) <= old(availBS(this))
+//@   loop 0: invariant posBS(this) + numBits == old(posBS(this)) + old(numBits) && 0 <= result && (old(numBits) - numBits < 32 ==> result < (1 << uint(old(numBits) - numBits)))
+//@   loop 0: invariant forall k int :: 0 <= k && k < old(numBits) - numBits ==> ((result >> uint(old(numBits) - numBits - 1 - k)) & 1 == 1) == srcBit(this, old(posBS(this)) + k)
 //@   loop 0: decreases numBits
